@@ -215,6 +215,23 @@ func (e *wsEnv) serveUpstream(u *upstream) {
 			if err := writeServerFrame(conn, b); err != nil {
 				return
 			}
+		case "nullevent":
+			// an event whose root field is null (nothing to stitch into)
+			u.emitted++
+			pl := e.eventPayload(u, e.eventBase+u.index*10+u.emitted)
+			if d, ok := pl["data"].(map[string]interface{}); ok {
+				for k := range d {
+					d[k] = nil
+				}
+			} else if d, ok := pl["data"].(gqlref.Obj); ok {
+				for k := range d {
+					d[k] = nil
+				}
+			}
+			b, _ := json.Marshal(map[string]interface{}{"type": "data", "id": "1", "payload": pl})
+			if err := writeServerFrame(conn, b); err != nil {
+				return
+			}
 		case "bigevent":
 			// an event of some 20 kB (the gateway forwards what the service says, whatever the schema promises)
 			u.emitted++
